@@ -59,7 +59,7 @@ fn resolve_kind(m: &Module, t: &Trace) -> &'static str {
 
 /// the card that fails at run time, with the error kind it provokes
 fn failing_card(rng: &mut Rng, tag: i64) -> (Card, &'static str) {
-    match rng.below(9) {
+    match rng.below(12) {
         0 => (Card::call_native("fail", vec![]), "TaskFailure"),
         1 => (Card::call_native(format!("missing{tag}"), vec![int(tag)]), "ProcedureNotFound"),
         2 => (Card::get_property(int(tag), int(1)), "InvalidArgument"),
@@ -68,6 +68,9 @@ fn failing_card(rng: &mut Rng, tag: i64) -> (Card, &'static str) {
         5 => (c(CardBody::Len(UnaryExpression::new(Card::call_native("strlen", vec![int(tag)])))), "TaskFailure"),
         6 => (c(CardBody::Get(Box::new([int(tag), int(0)]))), "InvalidArgument"),
         7 => (c(CardBody::PopTable(UnaryExpression::new(int(tag)))), "InvalidArgument"),
+        // the call instruction itself fails: the callee wants more values than the stack holds
+        9 => (Card::call_function("needs40", vec![int(tag)]), "MissingArgument"),
+        10 => (Card::dynamic_call(c(CardBody::Function("needs40".into())), vec![int(tag)]), "MissingArgument"),
         _ => (Card::call_native("strlen", vec![int(tag)]), "TaskFailure"),
     }
 }
@@ -148,6 +151,7 @@ fn gen_case(rng: &mut Rng) -> (Module, String, usize) {
             root_fns.push((name, f));
         }
     }
+    root_fns.push(("needs40".to_string(), Function { arguments: (0..40).map(|i| format!("p{i}")).collect(), cards: vec![] }));
     // main need not be the first function
     if rng.chance(1, 2) {
         root_fns.insert(0, ("first".to_string(), Function { arguments: vec![], cards: vec![Card::set_global_var("never", int(0))] }));
@@ -188,10 +192,34 @@ impl Engine for TraceEngine {
             // resource errors can strike at any instruction: sweep the budget (and use a small
             // value stack) over a random well-scoped program
             let size = rng.range(1, 4) as usize;
-            let m = crate::progs::gen_program(rng, &crate::progs::GenOpts { size, with_submodules: idx % 2 == 0 });
+            let mut m = crate::progs::gen_program(rng, &crate::progs::GenOpts { size, with_submodules: idx % 2 == 0 });
+            if idx % 10 == 3 {
+                // allocation- and push-heavy prefix: string literals, tables and nested operands, so
+                // that OutOfMemory / Stackoverflow strike at literals and allocating instructions
+                let pos = m.functions.iter().position(|(n, _)| n == "main").unwrap();
+                let lit = |rng: &mut Rng| c(CardBody::StringLiteral("x".repeat(rng.range(0, 40) as usize)));
+                let mut pre = vec![];
+                for k in 0..rng.range(2, 6) {
+                    let e = match rng.below(4) {
+                        0 => lit(rng),
+                        1 => c(CardBody::Add(Box::new([lit(rng), c(CardBody::Add(Box::new([lit(rng), lit(rng)])))]))),
+                        2 => c(CardBody::CreateTable),
+                        _ => Card::call_native("sum2", vec![lit(rng), c(CardBody::Len(UnaryExpression::new(lit(rng))))]),
+                    };
+                    pre.push(Card::set_global_var(format!("pre{k}"), e));
+                }
+                for (k, card) in pre.into_iter().enumerate() {
+                    m.functions[pos].1.cards.insert(k, card);
+                }
+                let upto = rng.range(10, 40);
+                let stack = *rng.pick(&[2usize, 3, 4, 5, 6]);
+                let mem = *rng.pick(&[409600usize, 150, 300, 500, 900]);
+                return vec![format!("trc sweep {} upto={upto} stack={stack} mem={mem}", module_tok(&m))];
+            }
             let upto = if _tier == Tier::Quick { rng.range(20, 80) } else { rng.range(40, 200) };
             let stack = *rng.pick(&[256usize, 256, 12, 6]);
-            return vec![format!("trc sweep {} upto={upto} stack={stack}", module_tok(&m))];
+            let mem = *rng.pick(&[409600usize, 409600, 600, 1200]);
+            return vec![format!("trc sweep {} upto={upto} stack={stack} mem={mem}", module_tok(&m))];
         }
         if idx % 5 == 4 {
             let (m, planted) = gen_compile_case(rng);
@@ -229,11 +257,14 @@ impl Engine for TraceEngine {
                             let (upto, stack) = (get("upto=", 50), get("stack=", 256));
                             let (mut errs, mut epi, mut other) = (0, 0, 0);
                             let mut first = String::new();
+                            let mut traces: Vec<String> = vec![];
+                            let mem = get("mem=", 409600);
                             for b in 1..=upto {
-                                let mut vm = new_vm(409600, stack, 64);
+                                let mut vm = new_vm(mem, stack, 64);
                                 vm.max_instr = b as u64;
                                 if let Err(e) = vm.run(&prog) {
                                     errs += 1;
+                                    traces.push(format!("{b}:{}:{}", err_kind(&e.payload), e.trace.iter().map(crate::engines::compile::show_trace).collect::<Vec<_>>().join(";")));
                                     for (k, t) in e.trace.iter().enumerate() {
                                         let kind = resolve_kind(&module, t);
                                         if kind != "card" {
@@ -245,7 +276,7 @@ impl Engine for TraceEngine {
                                     }
                                 }
                             }
-                            format!("sweep errors={errs} unresolved_epilogue={epi} unresolved_other={other}{first}")
+                            format!("sweep errors={errs} unresolved_epilogue={epi} unresolved_other={other}{first} traces=[{}]", traces.join(","))
                         }
                     },
                 },
